@@ -5,19 +5,27 @@ Node grouping of a free-form Fortran source, written from the property text on t
 conditional tests or what a conditional selects as a whole — and the counted lines between two directive lines (statement
 text, sentinel comments; blank and comment lines left out) are selected or skipped TOGETHER by the conditionals around
 them.  So the counted lines of a text fall into groups: one per directive line, one per maximal run of counted
-non-directive lines between directive lines.  (Inside the reference's `WF` a directive never stands inside a continued
+non-directive lines between directive lines.  A `#` line whose first token is `##` (`isPasteLine`) is counted by the
+reference like every `#` line but is not a directive: it belongs to the run of counted lines around it.  (Inside the reference's `WF` a directive never stands inside a continued
 statement, so a group never cuts a statement.)
 
 Core Lean only.
 -/
 namespace CbiVerif.Fortran
 
+/-- the text of a `#` line (after leading blanks) starts with `##`: its first token is the paste operator `##`, not `#`, so
+    by the property's reading ("a directive is a line whose first token is `#`") it is NOT a preprocessor directive but
+    counted text that is selected or skipped together with the counted lines around it -/
+def isPasteLine : List Char → Bool
+  | [] => false
+  | c :: cs => if pyIsSpace c then isPasteLine cs else c == '#' && cs.head? == some '#'
+
 def flushGroup (acc : List Nat) : List (Bool × List Nat) := if acc.isEmpty then [] else [(false, acc)]
 
 /-- `n` lines read so far, `acc` the open group of counted non-directive lines; per line the verdict of the reference -/
 def refNodesAux : Nat → List Nat → List (List Char) → List (Bool × Bool) → List (Bool × List Nat)
   | n, acc, l :: ls, (c, _) :: r =>
-    if isDirectiveLine l then flushGroup acc ++ (true, [n + 1]) :: refNodesAux (n + 1) [] ls r
+    if isDirectiveLine l && !isPasteLine l then flushGroup acc ++ (true, [n + 1]) :: refNodesAux (n + 1) [] ls r
     else refNodesAux (n + 1) (if c then acc ++ [n + 1] else acc) ls r
   | _, acc, _, _ => flushGroup acc
 
